@@ -25,7 +25,7 @@ _PROG = {}
 
 def prog(cfg="A"):
     if cfg not in _PROG:
-        _PROG[cfg] = build.load_program(cfg, files=["src/wkdibe/api.cpp"], tag="wkd_" + cfg)
+        _PROG[cfg] = build.load_program(cfg, files=["src/wkdibe/api.cpp", "src/bls12_381/fr.cpp"], tag="wkd_" + cfg)
     return _PROG[cfg]
 
 
@@ -73,6 +73,8 @@ class World:
         self.I = eir.Interp(self.prog)
         self.I.solver.set("timeout", timeout_ms)
         self.M = dom_grp.install(self.I, self.G)
+        # wkdibe::group_order is dynamically initialised (copied from Fr::p_value by the TU's static initialiser): run it, as the loader does
+        self.I.run_static_initialisers()
         G = self.G
         self.alpha, self.gam, self.g2, self.g3 = G.sym("alpha"), G.sym("gam"), G.sym("g2"), G.sym("g3")
         self.h = [G.sym("h%d" % i) for i in range(l)]
